@@ -347,7 +347,7 @@ func (g *gen) genError(typs []types.Type) error {
 	case 1:
 		t := out.At(0).Type()
 		outStr := g.TypeString(t)
-		zeroStr := derive.Zero(t)
+		zeroStr := derive.ZeroOf(t, g.TypeString)
 		p.P("// %s returns an error if g returns one, otherwise it applies f to g's result and returns it.", name)
 		p.P("func %s(f func(%s) %s, g func() (%s, error)) (%s, error) {", name, inStr, outStr, inStr, outStr)
 		p.In()
